@@ -244,8 +244,20 @@ func checkUnpad(c *Ctx, rule string, f *ssa.Function, data ssa.Value, bs int64) 
 }
 
 // checkUnpadDyn: bsIs (optional) recognises the run-time block size value when it is not a constant.
-func checkUnpadDyn(c *Ctx, rule string, f *ssa.Function, data ssa.Value, bs int64, bsIs func(v ssa.Value) bool) {
+func checkUnpadDyn(c *Ctx, rule string, f *ssa.Function, data ssa.Value, bs int64, bsIs func(v ssa.Value) bool, sameLen ...ssa.Value) {
 	fn := fname(f)
+	// values of the same length as data (data = make([]byte, len(x)))
+	isData := func(x ssa.Value) bool {
+		if x == data {
+			return true
+		}
+		for _, y := range sameLen {
+			if x == y {
+				return true
+			}
+		}
+		return false
+	}
 	spec, ok := defaultResultSpec(f)
 	if !ok {
 		c.Undecided(rule, fn, "un-padder result", "function has no error/bool result", f.Pos())
@@ -286,7 +298,7 @@ func checkUnpadDyn(c *Ctx, rule string, f *ssa.Function, data ssa.Value, bs int6
 			}
 			// len(src) == bs enforced
 			isLen0 := func(v ssa.Value) bool {
-				return isLenOf(v, func(x ssa.Value) bool { return x == data })
+				return isLenOf(v, isData)
 			}
 			if (isLen0(l) && bsIs(r)) || (bsIs(l) && isLen0(r)) {
 				switch bo.Op {
@@ -321,7 +333,7 @@ func checkUnpadDyn(c *Ctx, rule string, f *ssa.Function, data ssa.Value, bs int6
 		}
 		// pad vs len(src)
 		isLen := func(v ssa.Value) bool {
-			return isLenOf(v, func(x ssa.Value) bool { return x == data }) || be.plain(v, ifi).String() == "len(src)"
+			return isLenOf(v, isData) || be.plain(v, ifi).String() == "len(src)"
 		}
 		if isPad(l, ifi) && isLen(r) {
 			switch bo.Op {
@@ -344,7 +356,7 @@ func checkUnpadDyn(c *Ctx, rule string, f *ssa.Function, data ssa.Value, bs int6
 	// (a degenerate configuration); returns taken on `len(src) == 0` are outside the rule.
 	pre := map[edge]bool{}
 	if bsIs != nil {
-		for _, a := range lenGuardAtoms(f, func(v ssa.Value) bool { return v == data }, func(n int64) bool { return n > 0 }, []int64{0, 1, 16}, "len > 0") {
+		for _, a := range lenGuardAtoms(f, isData, func(n int64) bool { return n > 0 }, []int64{0, 1, 16}, "len > 0") {
 			b := a.If.Block()
 			pre[edge{b, b.Succs[1-a.PassSucc]}] = true
 		}
@@ -367,7 +379,7 @@ func checkUnpadDyn(c *Ctx, rule string, f *ssa.Function, data ssa.Value, bs int6
 	}
 	c.Check(g.OK, rule, fn, "pad length above the data length rejected", g.Why, "a pad longer than the data must be rejected (it is used as a slice bound): "+g.Why, g.Pos)
 	// empty input
-	e := lenGuardAtoms(f, func(v ssa.Value) bool { return v == data }, func(n int64) bool { return n > 0 }, []int64{0, 1, 16}, "len > 0")
+	e := lenGuardAtoms(f, isData, func(n int64) bool { return n > 0 }, []int64{0, 1, 16}, "len > 0")
 	g = evalGuard(c.P, f, e, spec, nil)
 	if !g.OK && bsIs != nil {
 		// the final block always exists and is full: len == bs is enforced (bs > 0 by construction)
@@ -468,6 +480,106 @@ func checkUnpadDyn(c *Ctx, rule string, f *ssa.Function, data ssa.Value, bs int6
 				} else {
 					why = r.Why
 				}
+			}
+		}
+	}
+	// alternative: `for _, b := range src[len(src)-pad:] { if b != byte(pad) { reject } }`
+	for _, h := range loopHeaders(f) {
+		if okLoop {
+			break
+		}
+		ifi, ok := lastIf(h)
+		if !ok {
+			continue
+		}
+		cmp, ok := ifi.Cond.(*ssa.BinOp)
+		if !ok || cmp.Op != token.LSS {
+			continue
+		}
+		inc, ok := cmp.X.(*ssa.BinOp)
+		if !ok || inc.Op != token.ADD {
+			continue
+		}
+		p, ok := inc.X.(*ssa.Phi)
+		if !ok || p.Block() != h {
+			continue
+		}
+		if iv, ok := inductionOf(p); !ok || iv.step != 1 || iv.init != -1 {
+			continue
+		}
+		var tail *ssa.Slice
+		isLenOf(cmp.Y, func(x ssa.Value) bool {
+			if sl, ok := x.(*ssa.Slice); ok {
+				tail = sl
+			}
+			return false
+		})
+		if tail == nil || tail.X != data || tail.High != nil || tail.Low == nil {
+			continue
+		}
+		lo, ok := tail.Low.(*ssa.BinOp)
+		if !ok || lo.Op != token.SUB || !isLenOf(lo.X, isData) || !isPad(stripConvAll(lo.Y), ifi) {
+			continue
+		}
+		// the loop is left only by exhausting the tail or through a rejection
+		inLoop := map[*ssa.BasicBlock]bool{h: true}
+		for _, b := range f.Blocks {
+			if h.Dominates(b) && b != h && reach([]*ssa.BasicBlock{b}, nil)[h] {
+				inLoop[b] = true
+			}
+		}
+		exSucc := successExits(f, spec)
+		early := false
+		for b := range inLoop {
+			for si, sc := range b.Succs {
+				if inLoop[sc] || (b == h && si == 1) {
+					continue
+				}
+				e := edge{b, sc}
+				if r, _ := canReachSuccess(sc, &e, exSucc, nil); r {
+					early = true
+				}
+			}
+		}
+		if early {
+			why = "the pad-checking loop can be left before all pad bytes were compared and still succeed"
+			continue
+		}
+		for b := range inLoop {
+			if b == h {
+				continue
+			}
+			ifi2, ok := lastIf(b)
+			if !ok {
+				continue
+			}
+			c2, ok := ifi2.Cond.(*ssa.BinOp)
+			if !ok || (c2.Op != token.NEQ && c2.Op != token.EQL) {
+				continue
+			}
+			ps := 1
+			if c2.Op == token.EQL {
+				ps = 0
+			}
+			everyIter := true
+			for _, pr := range h.Preds {
+				if h.Dominates(pr) && !b.Dominates(pr) {
+					everyIter = false
+				}
+			}
+			base, idx, isLd := loadOfIndex(stripConvAll(c2.X))
+			other := c2.Y
+			if !isLd {
+				base, idx, isLd = loadOfIndex(stripConvAll(c2.Y))
+				other = c2.X
+			}
+			if !isLd || base != ssa.Value(tail) || idx != ssa.Value(inc) || !everyIter || !isPad(stripConvAll(other), ifi2) {
+				continue
+			}
+			if r := evalReject(c.P, f, []Atom{{ifi2, ps, "pad byte equals pad"}}, spec); r.OK {
+				okLoop = true
+			} else {
+				why = r.Why
 			}
 		}
 	}
